@@ -437,8 +437,8 @@ PROPS["C14"] = dict(
           "order reaches the fast listener out of order. Failing announce syncs are held at the publisher so that newer announcements queue "
           "behind them; every handling goroutine that ran a sync must have sent exactly one notification, and explicit syncs that ran and "
           "returned success must equal the notifications sent from explicit-sync goroutines. "
-          "One explicit sync in four is a resync or carries an explicit older stop CID (the head recorded as latest then does not change, the notification is due all the same). A share of the announcements carries an address the subscriber cannot use (the handling goroutine cannot start a sync): such a goroutine sends at most one notification. A quarter of the explicit syncs have their context cancelled from the block hook (the caller gives up while the blocks are reported): a sync that completes all the same is notified like any other. Whether a notification was missed is decided per publisher by finding the notifications a listener had to get, in emission order, among those it received. distinct_nontrivial = distinct run configurations."),
-    floors={"quick": {"explicit_syncs_whose_context_ended_while_blocks_were_reported": 150, "listener_read-some-then-stall": 15, "announcements_with_an_unusable_address": 80, "explicit_resyncs": 100, "explicit_syncs_with_stop_cid": 80, "must_deliveries_checked": 600, "emitted_events": 500, "long_runs_with_stalled_listener": 5, "listener_stalled": 10, "listener_cancel-then-read": 10, "listener_cancel-after-n": 10, "announce_triggered_syncs_checked": 200, "held_notification_overlap_runs": 12, "explicit_syncs_completed": 300}},
+          "One explicit sync in four is a resync or carries an explicit older stop CID (the head recorded as latest then does not change, the notification is due all the same). A share of the announcements carries an address the subscriber cannot use (the handling goroutine cannot start a sync): such a goroutine sends at most one notification. A quarter of the explicit syncs have their context cancelled from the block hook (the caller gives up while the blocks are reported): a sync that completes all the same is notified like any other. Whether a notification was missed is decided per publisher by finding the notifications a listener had to get, in emission order, among those it received. In half of the runs that end with Close one more explicit sync is held at its very end while Close starts; Close lets it finish, and every listener still registered must get its notification. A third of the runs give the subscriber a 300 ms HTTP timeout and let half of the failing announce syncs fail because the publisher does not answer (a deadline error): one error notification is due all the same. distinct_nontrivial = distinct run configurations."),
+    floors={"quick": {"announce_syncs_failing_by_http_timeout": 20, "syncs_finishing_while_close_is_under_way": 15, "explicit_syncs_whose_context_ended_while_blocks_were_reported": 150, "listener_read-some-then-stall": 15, "announcements_with_an_unusable_address": 80, "explicit_resyncs": 100, "explicit_syncs_with_stop_cid": 80, "must_deliveries_checked": 600, "emitted_events": 500, "long_runs_with_stalled_listener": 5, "listener_stalled": 10, "listener_cancel-then-read": 10, "listener_cancel-after-n": 10, "announce_triggered_syncs_checked": 200, "held_notification_overlap_runs": 12, "explicit_syncs_completed": 300}},
     watchdog_s={"quick": 900, "thorough": 7200},
     level_text=("Exploration over schedules: each run's listeners are compared with the emission log; delivery obligations are derived from logical "
                 "timestamps so that only what the statement promises is demanded."),
